@@ -74,11 +74,20 @@ def scenario(dest, kind, overwrite, select, layout):
     return world, steps, td, path, other, shown
 
 
-def _case(dest, kind, overwrite, select, layout):
+ENVX = [None, '0', 'no']
+
+
+def _case(dest, kind, overwrite, select, layout, envx=0):
     with rt.untraced():
-        rt.begin((DEST[dest], K.KINDS[kind], overwrite, SELECT[select], LAYOUTS[layout]))
+        rt.begin((DEST[dest], K.KINDS[kind], overwrite, SELECT[select], LAYOUTS[layout], ENVX[envx]))
         world, steps, td, path, other, shown = scenario(dest, kind, overwrite, select, layout)
-        label = 'dest=%s:entry=%s' % (DEST[dest], K.KINDS[kind])
+        if envx:
+            # whatever undocumented environment variable the command consults: a value like 0 / no must not enable anything
+            names = scen.consulted_unknown_env(world, steps[1])
+            if not names:
+                return rt.ok()
+            steps[1] = dict(steps[1], env=dict(steps[1]['env'], **{n: ENVX[envx] for n in names}))
+        label = 'dest=%s:entry=%s' % (DEST[dest], K.KINDS[kind]) + (':env-%s=%s' % ('+'.join(names), ENVX[envx]) if envx else '')
         m, res = scen.run_model(world, steps)
         before, r, after = res
         if r['exc']:
@@ -153,6 +162,14 @@ def _case(dest, kind, overwrite, select, layout):
         return rt.ok()
 
 
+def w_env(dest: int, kind: int, select: int, envx: int) -> str:
+    """
+    pre: 0 <= dest < 7 and 0 <= kind < 6 and 0 <= select < 3 and 1 <= envx <= 2
+    post: _ == ''
+    """
+    return _case(rt.sel(dest, 7), rt.sel(kind, 6), False, rt.sel(select, 3), 0, rt.sel(envx, 3))
+
+
 def w_main(dest: int, kind: int, overwrite: bool, select: int, layout: int) -> str:
     """
     pre: PARTITION is None or dest == PARTITION
@@ -163,6 +180,8 @@ def w_main(dest: int, kind: int, overwrite: bool, select: int, layout: int) -> s
 
 
 def obligations(tier):
-    return [CH('W_dest_kind_overwrite_select_layout', MOD, 'w_main', timeout=900, partitions=list(range(7)),
+    return [CH('W_undocumented_environment_variables_set_to_0_or_no', MOD, 'w_env', timeout=600, engine='W', regime='selector', encodes=K.RESTORE_FUNCS, stubs=K.STUBS + ['os.environ records the names looked up'],
+               bounds='every environment variable the run consults beyond the documented ones (discovered by a probe run) set to 0 / no; 7 destination kinds x 6 entry kinds x 3 selections, no --overwrite'),
+            CH('W_dest_kind_overwrite_select_layout', MOD, 'w_main', timeout=900, partitions=list(range(7)),
                engine='W', regime='selector', encodes=K.RESTORE_FUNCS, stubs=K.STUBS,
                bounds='7 destination kinds x 6 entry kinds x overwrite x 8 selections (incl. a Path through a missing directory and dot-dot, two generations of the same path in one selection, and a Path spelled through a symlinked directory and dot-dot) x 3 layouts')]
